@@ -26,6 +26,11 @@ let dec_db (s : String.t) : stackv list = List.map dec_stack (split_sep '|' s)
 let dec_opt (s : String.t) : ascii list option =
   if s = "-" then None else Some (dec_str (String.sub s 1 (String.length s - 1)))
 
+(* D63 (/repo 94fc8d3): a top-level forward request (depth 0) starts with an empty alreadySetupProducts table, so a
+   product chosen by an earlier request on the same Eups object is invisible to the resolution of Eups.setup at depth 0;
+   findProductFromVRO called directly still reads the table (the walk keeps prev) *)
+let top_prev depth prev = (match depth with O -> None | _ -> prev)
+
 let dec_prev (s : String.t) =
   if s = "-" then None else
   match split_on_string '~' s with
@@ -91,7 +96,7 @@ let case_fields (f : String.t array) (db : stackv list) : String.t list =
        let f0 = (match flavors with x :: _ -> x | [] -> []) in
        let walk = find_from_vro vcmp_simple vmatch_simple cfg db prev f0 depth vro rq in
        let (wf_, wr) = (match walk with Some (p, r) -> (Some p, Some r) | None -> (None, None)) in
-       let res = resolve_request vcmp_simple vmatch_simple cfg db o.o_keep prev flavors depth vro rq in
+       let res = resolve_request vcmp_simple vmatch_simple cfg db o.o_keep (top_prev depth prev) flavors depth vro rq in
        let (rf, rr) = (match res with
            | Err k -> ("err:" ^ err_name k, "-")
            | Ok None -> ("-", "-")
@@ -148,7 +153,7 @@ let handle (f : String.t array) : String.t =
            | Err k -> ("err:" ^ err_name k, "-")
            | Ok None -> ("-", "-")
            | Ok (Some (p, r)) -> (show_found (Some p), show_reason (Some r))) in
-       let (rf, rr) = (match resolve_real cfg db o.o_keep prev flavors depth vro rq with
+       let (rf, rr) = (match resolve_real cfg db o.o_keep (top_prev depth prev) flavors depth vro rq with
            | Err k -> ("err:" ^ err_name k, "-")
            | Ok None -> ("-", "-")
            | Ok (Some (p, r)) -> (show_found (Some p), show_reason r)) in
@@ -213,7 +218,7 @@ let handle (f : String.t array) : String.t =
            | Err k -> ("err:" ^ err_name k, "-")
            | Ok None -> ("-", "-")
            | Ok (Some (p, r)) -> (show_found (Some p), show_reason (Some r))) in
-       let (rf, rr) = (match resolve_request_x vcmp_simple vmatch_simple cfg w o.o_keep prev flavors depth vro rq with
+       let (rf, rr) = (match resolve_request_x vcmp_simple vmatch_simple cfg w o.o_keep (top_prev depth prev) flavors depth vro rq with
            | Err k -> ("err:" ^ err_name k, "-")
            | Ok None -> ("-", "-")
            | Ok (Some (p, r)) -> (show_found (Some p), show_reason r)) in
